@@ -80,7 +80,22 @@ Deriv(t, c) ==
 DerivOk(R) == \A c \in Sigma : Same(Deriv(R, c), TQuot(c, R))
                  /\ \A c2 \in Sigma : Same(Deriv(Deriv(R, c), c2), TQuot(c2, TQuot(c, R)))
 
-JudgeR(n) == IF RulesFor(S1[n]) /\ DerivOk(S1[n]) /\ DerivOk(L(S1[n], <<1, 2>>)) /\ DerivOk(L(S1[n], <<2, -1>>)) THEN TRUE ELSE PrintT(<<"RULEBUG", S1[n]>>) /\ FALSE
+(* Derivative classes (BaseRegLan::deriv_class) as an equivalence on characters: two characters in the  *)
+(* same class must have the same derivative (left quotient).  Concat looks at the right operand only    *)
+(* when the left one is nullable; loops and complements inherit; unions/intersections refine all.       *)
+RECURSIVE SameClass(_, _, _)
+SameClass(t, x, y) ==
+  CASE t.k \in {"none", "eps"} -> TRUE
+    [] t.k = "rng"  -> (t.lo <= x /\ x <= t.hi) = (t.lo <= y /\ y <= t.hi)
+    [] t.k = "str"  -> t.w = <<>> \/ ((t.w[1] = x) = (t.w[1] = y))
+    [] t.k = "cat2" -> SameClass(t.a, x, y) /\ (Nul(t.a) => SameClass(t.b, x, y))
+    [] t.k \in {"loop", "not"} -> SameClass(t.a, x, y)
+    [] t.k \in {"alt", "and"} -> \A i \in 1..Len(t.xs) : SameClass(t.xs[i], x, y)
+    [] t.k = "quot" -> TRUE                     \* (no class rule for quotients: they are not terms of the crate)
+ClassesOk(R) == R.k = "quot" \/ \A x, y \in Sigma : SameClass(R, x, y) => Same(TQuot(x, R), TQuot(y, R))
+
+JudgeR(n) == IF RulesFor(S1[n]) /\ DerivOk(S1[n]) /\ DerivOk(L(S1[n], <<1, 2>>)) /\ DerivOk(L(S1[n], <<2, -1>>))
+                /\ (S1[n].k # "quot" => (ClassesOk(S1[n]) /\ ClassesOk(TCat(L(S1[n], <<0, 1>>), TRng(0, 0))) /\ ClassesOk(TCat(S1[n], TNot(TRng(1, 1)))))) THEN TRUE ELSE PrintT(<<"RULEBUG", S1[n]>>) /\ FALSE
 InitR == l \in 1..(IF N1 < K THEN N1 ELSE K)
 NextR == l <= N1 /\ JudgeR(l) /\ l' = l + K
 DoneR == TLCGet("stats").distinct = N1 + (IF N1 < K THEN N1 ELSE K)
